@@ -22,6 +22,8 @@ pub struct NodeView {
     /// a DHCP client socket runs but no application applies its leases to the interface (adversary scenario):
     /// the client's own messages (68 -> 67) are then sourced from an address only the socket knows
     pub dhcp_unmanaged: bool,
+    /// SLAAC is enabled: addresses the stack forms itself from advertised 2001:db8::/32 prefixes are its own
+    pub slaac_prefixes: bool,
 }
 
 pub struct Tapped {
@@ -209,6 +211,9 @@ fn check_source_rule(view: &NodeView, ip: &Ip, pkt: &Packet) -> Result<(), Viola
                 format!("frame sourced from the unspecified address: {}", pkt.summary()),
             ));
         }
+        return Ok(());
+    }
+    if view.slaac_prefixes && !src.is_v4() && src.bytes()[..4] == [0x20, 0x01, 0x0d, 0xb8] {
         return Ok(());
     }
     if !view.addrs.iter().any(|(a, _)| a == src) {
